@@ -101,6 +101,16 @@ CLAIMED.update({
              technique='Coq proof over a hand-written model with AST-derived pointer scale; differential tie + reference search',
              ref='DESIGN.md section 4 C09'),
 })
+CLAIMED.update({
+ 'C10': dict(text='Theorems by induction over the list of strings (unbounded number and lengths, total < 2^16): C10_pack (recorded length = packed size; destination receives '
+                  'exactly the reference encoding enc_strings, nothing else touched), C10_count (count = number of strings, also > 255), C10_unpack (first min(requested, packed) '
+                  'strings, lengths only for null destinations, nothing beyond; with the source block of exactly the recorded length the outcome is Ok, never out-of-bounds, for every '
+                  'requested count). Hand model of the three functions; two code facts (index advanced in the loop, 16-bit return type) re-read from the AST each run.',
+             note='Trusts Coq kernel + vm_compute, the hand-written model VssModel.v of Vss.c:158-190/576-590 (typed 16-bit accesses through the generated byte-order helpers), '
+                  'tied by differential execution on exact-size heap objects under ASan; VssSpec.v as transcription of acf-vss.md. Print Assumptions: closed under the global context.',
+             technique='Coq proof by induction over string lists on a hand-written model; differential tie + rule-based search',
+             ref='DESIGN.md section 4 C10'),
+})
 ALL = ['C%02d' % i for i in range(1, 21)]
 def main():
     checks = []
